@@ -1,6 +1,8 @@
 package sim
 
 import (
+	"runtime"
+
 	"berty.tech/go-orbit-db/iface"
 	"berty.tech/go-orbit-db/stores/replicator"
 	"berty.tech/go-orbit-db/verifhook"
@@ -47,4 +49,31 @@ func OwnerStoreID(owner interface{}) string {
 		return a.Address().String()
 	}
 	return ""
+}
+
+// ---- fine-grained seeded yields (sources instrumented by tools/instrument) ----
+
+var autoYieldState, autoYieldEvery uint64
+var autoYieldCount uint64
+
+// SetAutoYieldRate: every==0 switches the yields off; otherwise a goroutine reaching an
+// inserted yield point calls runtime.Gosched() with probability 1/every, decided by a
+// generator whose state only advances at yield points (so the sequence of decisions is a
+// function of the run).
+func SetAutoYieldRate(seed uint64, every uint64) {
+	autoYieldState, autoYieldEvery, autoYieldCount = seed|1, every, 0
+	if every == 0 {
+		verifhook.SetAutoYield(nil)
+		return
+	}
+	verifhook.SetAutoYield(func() {
+		if inKernel {
+			return
+		}
+		autoYieldState = autoYieldState*6364136223846793005 + 1442695040888963407
+		if (autoYieldState>>33)%autoYieldEvery == 0 {
+			autoYieldCount++
+			runtime.Gosched()
+		}
+	})
 }
